@@ -108,3 +108,62 @@ func init() {
 			})
 	}
 }
+
+// ---------------------------------------------------------------------------------------------
+// C03 / C07 - a line carries the name of ITS event's level: two levels may share a code (a built-in
+// level and a user-registered alias), and whatever a layout remembers about levels must not be keyed
+// by the code alone. Every sequence of 1-3 events over 6 levels (three codes, two names each) through
+// both layouts, on fresh and on shared layout objects.
+// ---------------------------------------------------------------------------------------------
+
+type aliasSeqCase struct {
+	Layout string `json:"layout"`
+	Seq    []int  `json:"levels"`
+}
+
+func init() {
+	lv := []log.Level{log.WarnLevel, lvWarning, log.ErrorLevel, lvSevere, log.DebugLevel, lvFine}
+	for _, prop := range []string{"C03", "C07"} {
+		definePart(prop, strings.ToLower(prop)+"/alias-level-names", "qt", "every sequence of 1-3 events over 6 levels (3 codes x 2 names) x text/JSON layout: each line names its own event's level",
+			func(tier string, yield func(aliasSeqCase)) {
+				for _, l := range []string{"json", "text"} {
+					var rec func(cur []int)
+					rec = func(cur []int) {
+						if len(cur) > 0 {
+							yield(aliasSeqCase{l, append([]int(nil), cur...)})
+						}
+						if len(cur) == 3 {
+							return
+						}
+						for i := range lv {
+							rec(append(cur, i))
+						}
+					}
+					rec(nil)
+				}
+			},
+			func(c aliasSeqCase) (string, []Violation, int) {
+				confReset() // a fresh process state: whatever is cached about levels starts empty
+				var lay log.Layout = &log.TextLayout{BaseLayout: log.BaseLayout{FileLineLength: 48}}
+				if c.Layout == "json" {
+					lay = &log.JSONLayout{BaseLayout: log.BaseLayout{FileLineLength: 48}}
+				}
+				var v []Violation
+				var sb strings.Builder
+				for i, li := range c.Seq {
+					e := &log.Event{Level: lv[li], Time: encTime, File: "dir/file.go", Line: 42, Tag: "_enc_tag", Fields: []log.Field{log.Int("i", i)}}
+					line := string(lay.ToBytes(e))
+					sb.WriteString(line)
+					want := "[" + lv[li].Name() + "]["
+					if c.Layout == "json" {
+						want = `{"level":"` + strings.ToLower(lv[li].Name()) + `",`
+					}
+					if !strings.HasPrefix(line, want) {
+						v = append(v, Violation{Clause: "line-differs-from-solo-line", Key: fmt.Sprintf("%s levels=%v", c.Layout, c.Seq),
+							Detail: fmt.Sprintf("event %d was logged at %s (code %d): its line starts %q, want %q", i, lv[li].Name(), lv[li].Code(), trunc(line, 60), want)})
+					}
+				}
+				return sb.String(), v, len(c.Seq)
+			})
+	}
+}
